@@ -212,6 +212,27 @@ def run_structure(s):
     with util.patched(*util.std_patches(mods)):
         rep = symx.explore(body, s["sid"])
     obs = []
+    if klass != "canary":
+        # [bounded] the same request on the REAL libraries (one concrete size): independent of how strict the library models are
+        # (e.g. xarray accepts a rename that creates duplicate dimension names; the model cannot represent that)
+        import warnings
+        from vp.world import raised_in_harness
+        with warnings.catch_warnings():
+            warnings.simplefilter("ignore")
+            nw = NativeWorld({})
+            try:
+                fn(Env(nw, s["lay"]))
+                nat = ("returned", None)
+            except Exception as ex:  # noqa
+                nat = ("raised", ex)
+        if nat[0] == "raised" and raised_in_harness(nat[1]):
+            rep.engine_errors.append(f"native pass crashed inside the harness: {type(nat[1]).__name__}: {nat[1]}")
+        else:
+            ok = (nat[0] == "returned") if valid else (nat[0] == "raised")
+            obs.append({"fn": "raises-clause[bounded, real xarray]", "clause": ("valid-base-call-returns" if valid else f"refused[{klass}]") + ":native", "status": "proved" if ok else "failed",
+                        "time": 0.0, "detail": None if ok else ("returned an array" if nat[0] == "returned" else f"{type(nat[1]).__name__}: {nat[1]}"),
+                        **({} if ok else {"witness": {"lay": s["lay"], "case": s["case"], "valid": valid, "model": {}}})})
+            covers["native"] = 1
     for name, ob in rep.merged().items():
         rec = {"fn": "raises-clause", "clause": name, "status": ob.status, "time": ob.time, "detail": ob.detail}
         if ob.status == "failed":
